@@ -192,6 +192,9 @@ def run(ctx):
         if ctx.n_new() == 0:
             run_demo(ctx, 'demo_tr3.py', [1 + ctx.seed], 'c18-code-vs-generated-vs-model',
                      'BinaryCNet.log_likelihood routing vs generated step vs cnetBatch', env_extra=dict(DEMO_SECTIONS='c'))
+        if ctx.n_new() == 0:
+            run_demo(ctx, 'demo_tr4.py', [1 + ctx.seed], 'c18-code-vs-generated-vs-model-4',
+                     'cutset-network learner iterations vs generated steps vs the learner machine', env_extra=dict(DEMO_SECTIONS='e'))
 
 
 def replay(rep):
